@@ -17,6 +17,10 @@ var bases = []string{"", "", "/", "/api", "/api/", "/api/v1", "/a", "/a/", "/v.1
 // a tiny literal vocabulary, so that templates share prefixes and collide with each other and with values
 var lits = []string{"a", "b", "ab", "pets", "v.1", "x-y", "~", "a_b", "..a", "a.", "0", "api"}
 
+// literal text with the punctuation a path segment may carry unescaped (sub-delims, a spelled-out escape): a request
+// line delivers these bytes as they are, so the template's literal has to be matched as it is written (r7)
+var punctLits = []string{"a", "b", "ab", "a,b", "m;v", "f(x)", "it's", "a!b", "5%25", "$a", "a&b", "a+b", "@a"}
+
 var largeLits = []string{"a", "ab", "abc", "abd", "api", "apis", "v1", "v2", "v10", "user", "users", "u", "b", "ba",
 	"item", "items", "x.y", "x.z", "x", "-", "_", "~", "0", "00", "01", "pets", "pet", "p", "z", "zz", "a.b", "a.", ".a",
 	"long-literal-segment", "long-literal-segment-2", "long-literal"}
@@ -387,8 +391,12 @@ func genReqs(t *rapid.T, c Case, n int, vocab []string) []Req {
 // GenDispatch: a small API (1-6 templates over a tiny vocabulary) and 8 requests.
 func GenDispatch(t *rapid.T) Case {
 	c := Case{Base: rapid.SampledFrom(bases).Draw(t, "base")}
-	c.Tmpls = genTemplates(t, rapid.IntRange(1, 6).Draw(t, "ntmpl"), lits, 4, len(baseSegs(c.Base)) == 0)
-	c.Reqs = genReqs(t, c, 8, lits)
+	vocab := lits
+	if rapid.IntRange(0, 3).Draw(t, "punctuated-literals") == 0 {
+		vocab = punctLits
+	}
+	c.Tmpls = genTemplates(t, rapid.IntRange(1, 6).Draw(t, "ntmpl"), vocab, 4, len(baseSegs(c.Base)) == 0)
+	c.Reqs = genReqs(t, c, 8, vocab)
 	return c
 }
 
@@ -651,6 +659,9 @@ func Classify(c Case) (bool, []string) {
 		labels["table ≥50 templates"] = true
 	}
 	for _, tm := range c.Tmpls {
+		if strings.ContainsAny(tm.Path, ",;()'!%$&+@") {
+			labels["template literal with sub-delimiters or a spelled-out escape"] = true
+		}
 		if strings.Contains(tm.Path, ":") {
 			labels["parameter-free template with a literal ':'"] = true
 		}
